@@ -80,6 +80,17 @@ LA(ranges, K, s) == ListFld(KindOfW(SumW(ranges)), ranges, <<K>>, <<s>>, "rw")
 LSA(ranges, K, s) == ListFld("inat", ranges, <<K>>, <<s>>, "rw")
 Rev8  == [k \in 1..8 |-> <<8 - k, 8 - k>>]                    \* bit reversal of a byte
 Rev7  == [k \in 1..7 |-> <<7 - k, 7 - k>>]
+LK(kind, ty, ranges, arr, stride) ==
+  LET f == Fld("f", kind, 0, ty, ranges, TRUE, arr, stride, "rw") IN [f EXCEPT !.tw = Width(f)]
+ListKinds(W) == <<
+  LK("bool", 0, << <<5, 5>> >>, <<>>, <<>>), LK("bool", 0, << <<W - 1, W - 1>> >>, <<>>, <<>>),
+  LK("bool", 0, << <<3, 3>> >>, <<4>>, <<>>), LK("bool", 0, << <<1, 1>> >>, <<3>>, <<7>>), LK("bool", 0, << <<0, 0>> >>, <<W>>, <<1>>),
+  LK("enum", 1, << <<9, 9>>, <<2, 2>> >>, <<>>, <<>>), LK("enum", 1, << <<W - 1, W - 1>>, <<0, 0>> >>, <<>>, <<>>),
+  LK("enum", 1, << <<0, 0>>, <<8, 8>> >>, <<4>>, <<2>>), LK("enum", 1, << <<4, 4>>, <<1, 1>> >>, <<3>>, <<5>>),
+  LK("enum", 1, << <<2, 3>> >>, <<3>>, <<2>>), LK("enum", 1, << <<1, 2>> >>, <<>>, <<>>),
+  LK("optenum", 2, << <<10, 10>>, <<0, 1>> >>, <<>>, <<>>), LK("optenum", 2, << <<W - 2, W - 1>>, <<3, 3>> >>, <<>>, <<>>),
+  LK("optenum", 2, << <<0, 1>>, <<12, 12>> >>, <<4>>, <<3>>), LK("optenum", 2, << <<6, 6>>, <<0, 1>> >>, <<3>>, <<7>>),
+  LK("optenum", 2, << <<4, 6>> >>, <<2>>, <<3>>) >>
 QNcFixed == <<
   MkDecl(8, <<>>, NameFields(<< L(Rev8), L(<< <<4, 7>>, <<0, 3>> >>), L(<< <<7, 7>>, <<0, 0>> >>),
                                 L(<< <<2, 3>>, <<6, 7>>, <<0, 0>> >>), LA(<< <<0, 0>>, <<2, 2>>, <<4, 4>>, <<6, 6>> >>, 2, 1),
@@ -119,7 +130,11 @@ QNcFixed == <<
   MkDecl(64, <<>>, NameFields(<< L(<< <<0, 7>>, <<32, 63>>, <<8, 31>> >>) >>), <<>>, <<>>, FALSE),
   MkDecl(128, <<>>, NameFields(<< L(<< <<0, 0>>, <<64, 127>>, <<1, 63>> >>), LS(<< <<0, 31>>, <<96, 127>>, <<32, 95>> >>) >>), <<>>, <<>>, FALSE),
   MkDecl(100, <<>>, NameFields(<< L(<< <<64, 99>>, <<0, 63>> >>), LS(<< <<92, 99>>, <<0, 7>>, <<40, 55>> >>), L(<< <<99, 99>>, <<0, 0>> >>),
-                                  LA(<< <<0, 1>>, <<50, 51>> >>, 25, 2) >>), <<>>, <<>>, FALSE)
+                                  LA(<< <<0, 1>>, <<50, 51>> >>, 25, 2) >>), <<>>, <<>>, FALSE),
+  (* bool / enum / Option<enum> elements declared through LISTS (scalar, tightly and loosely strided arrays): the list code
+     path with every element conversion, on a primitive and an arbitrary-int base *)
+  MkDecl(32, <<>>, NameFields(ListKinds(32)), <<EnumExh("E2", 2), EnumNonExh("O3", 3)>>, <<>>, FALSE),
+  MkDecl(27, <<>>, NameFields(ListKinds(27)), <<EnumExh("E2", 2), EnumNonExh("O3", 3)>>, <<>>, FALSE)
   >>
 
 ---------------------------------------------------------------------------
